@@ -39,6 +39,8 @@ type ClientOperationTemplate struct {
 
 	IsRequestBody bool
 	IsBodyReader  bool
+	// BodyContentType - media type of the request body the client sends.
+	BodyContentType string
 
 	Responses       []ClientResponseTemplate
 	DefaultResponse *ClientResponseTemplate
@@ -61,8 +63,10 @@ func NewClientOperation(o *Operation) ClientOperationTemplate {
 	if requestBody, ok := o.Operation.RequestBody.Get(); ok {
 		if requestBody.Value().Content.Has("application/json") {
 			c.IsRequestBody = true
+			c.BodyContentType = "application/json"
 		} else if len(requestBody.Value().Content.List) > 0 {
 			c.IsBodyReader = true
+			c.BodyContentType = requestBody.Value().Content.List[0].Name
 		}
 	}
 
